@@ -66,6 +66,26 @@ func Flt(f float64) *N    { return &N{K: KFloat, F: f} }
 // 0x1F, 1_000, 1e3 ...); JSON input and the expected side use the value.
 func IntRaw(text string, v int64) *N   { return &N{K: KInt, I: v, S: text} }
 func FltRaw(text string, f float64) *N { return &N{K: KFloat, F: f, S: text} }
+
+// BigUint is an integer beyond int64 (2^63 .. 2^64-1), written as decimal
+// digits in both input formats; readers and the expected side see it as the
+// nearest float64 (a wrapped or truncated value is far away from that).
+func BigUint(digits string) *N {
+	f, err := strconv.ParseFloat(digits, 64)
+	if err != nil {
+		panic(err)
+	}
+	return &N{K: KFloat, F: f, S: digits}
+}
+
+func allDigits(s string) bool {
+	for _, r := range s {
+		if r < '0' || r > '9' {
+			return false
+		}
+	}
+	return s != ""
+}
 func Bool(b bool) *N      { return &N{K: KBool, B: b} }
 func Time(s string) *N    { return &N{K: KTime, S: s} }
 func Seq(items ...*N) *N  { return &N{K: KSeq, Items: items} }
@@ -173,7 +193,11 @@ func (n *N) json(b *bytes.Buffer) {
 	case KInt:
 		b.WriteString(strconv.FormatInt(n.I, 10))
 	case KFloat:
-		b.WriteString(fmtFloat(n.F))
+		if allDigits(n.S) {
+			b.WriteString(n.S)
+		} else {
+			b.WriteString(fmtFloat(n.F))
+		}
 	case KBool:
 		b.WriteString(strconv.FormatBool(n.B))
 	case KSeq:
@@ -270,6 +294,9 @@ func (n *N) yamlNode(o YAMLOpts, anchors map[*N]*yaml.Node) *yaml.Node {
 		y.Kind, y.Tag, y.Value = yaml.ScalarNode, "!!float", fmtFloat(n.F)
 		if n.S != "" {
 			y.Value = n.S
+			if allDigits(n.S) {
+				y.Tag = "!!int" // a BigUint: an integer to the YAML reader
+			}
 		}
 	case KBool:
 		y.Kind, y.Tag, y.Value = yaml.ScalarNode, "!!bool", strconv.FormatBool(n.B)
